@@ -454,7 +454,7 @@ def run(ctx):
     ]
     ctx.assumptions += [
         "read_dir succeeds for every directory below the root (index_files unwraps it)",
-        "requests name files by their canonical path (no URIs through symlinks); symlinks occur only as directory entries",
+        "requests name files by their canonical path or through a symlinked workspace root (one case in five); other symlinks occur only as directory entries",
         "by-class answers are compared exactly only for stems that are unique up to case (the property's quantifier); duplicated stems: the answer must be one of the candidates",
     ]
     if ctx.replay:
@@ -471,15 +471,18 @@ def run(ctx):
         metas.append(None)
     for k in range(n):
         g = Gen(ctx, deep=(ctx.tier == "thorough" and k % 3 == 0)).build()
-        cases.append("index %s %s" % (esc(WS), " ".join(g.words)))
+        # one case in five: the server gets the workspace folder through a symlink and every request URI goes through it
+        cases.append("index %s %s%s" % (esc(WS), "R " if k % 5 == 4 else "", " ".join(g.words)))
         metas.append(g)
+        if k % 5 == 4:
+            ctx.count("root through a symlink")
         ctx.count("god files=%d" % min(len(g.disk.god_files()), 8))
         ctx.count("max depth=%d" % max([p.count("/") for p in g.disk.ents] + [0]))
         if g.allow_dup:
             ctx.count("duplicate stems allowed")
     ctx.log("%d cases (%d corpus)" % (len(cases), len(CORPUS)))
     impl = ctx.run_harness("index", cases)
-    model = ctx.run_driver(cases)
+    model = ctx.run_driver([c.replace(" R ", " ", 1) if c.split(" ")[2:3] == ["R"] else c for c in cases])   # the model has one name per file
     impl_c, model_c = [], []
     nfail = {}
     for c, g, a, b in zip(cases, metas, impl, model):
@@ -528,7 +531,7 @@ def replay(ctx):
     ctx.lake_build(["driver"])
     os.makedirs(WS, exist_ok=True)
     impl = ctx.run_harness("index", [line])[0]
-    model = ctx.run_driver([line])[0]
+    model = ctx.run_driver([line.replace(" R ", " ", 1) if line.split(" ")[2:3] == ["R"] else line])[0]
     print("case          :", line)
     print("implementation:", impl)
     print("model         :", model)
